@@ -84,7 +84,7 @@ pub fn float_pool() -> Vec<f64> {
 pub fn string_pool() -> Vec<&'static str> {
     vec![
         "", "a", "b", "ab", "A", " x ", "äb", "日本", "ß", "İ", "é", "😀", "a\"b\\c", "/*", "//", "0", "ΟΔΥΣΣΕΥΣ", "ΣΑΣ Σ.", "ǅŉﬁ",
-        "\u{3000}price\u{a0}",
+        "\u{3000}price\u{a0}", "ıſɐ\u{212a}ẞ", "\u{e000}", "\u{ffff}x", "\u{10000}", "e\u{301}",
     ]
 }
 
